@@ -334,6 +334,29 @@ theorem gate_nothing_released_before_last_completion (c : Chan) (d : Nat) (h : (
   · simp [h]
   · rfl
 
+/-- PRODUCER CENSUS (tools/gen_mongate.py: every function of channel.rs that creates a ChannelMonitorUpdate, with its class; a new or
+    re-routed producer is a TRANSLATE-ERROR): while an earlier update of the channel is blocked, NO producer hands its update to
+    chain::Watch — every site of every non-preimage class hands over nothing (for every blocked queue, hold flag and id), and a preimage
+    producer hands over exactly the id of the FIRST blocked update (so the ids stay gap-free: claim_jump_keeps_ids_gap_free) -/
+theorem no_producer_hands_over_while_blocked (s : String × String) (hs : s ∈ Gen.updateSites) (b : Nat) (bs : List Nat) (hold : Bool) (id : Nat) :
+    (s.2 ≠ "preimage-jump" → s.2 ≠ "direct-close" → siteHandsOver s.2 (b :: bs) hold id = none) ∧
+    (s.2 = "preimage-jump" → siteHandsOver s.2 (b :: bs) hold id = some b) := by
+  simp only [Gen.updateSites, List.mem_cons, List.mem_nil_iff, or_false] at hs
+  rcases hs with rfl | rfl | rfl | rfl | rfl | rfl | rfl | rfl | rfl | rfl | rfl | rfl <;>
+    simp [siteHandsOver, Gen.pushBlockable, Gen.raaReleaseMonitor, Gen.claimJump]
+
+example : siteHandsOver "queued" [] false 9 = some 9 ∧ siteHandsOver "raa-release-monitor" [] true 9 = none ∧ siteHandsOver "raa-release-monitor" [] false 9 = some 9 := by decide
+
+/-- … the interactive-tx / splice producers (RenegotiatedFunding, RenegotiatedFundingLocked) and the ShutdownScript producers are all of
+    the queueing class; channelmanager.rs builds updates itself only for closed channels / at start-up (no blocked queue exists there) and
+    chain::Watch::update_channel has exactly one caller, handle_new_monitor_update_locked_actions_handled_by_caller (translated: mgrNewUpdate) -/
+theorem funding_step_producers_queue :
+    (∀ st ∈ Gen.stepSites, ∀ f ∈ st.2, (f, "queued") ∈ Gen.updateSites) ∧
+    (∀ s ∈ Gen.managerSites, s.2 = "closed-channel" ∨ s.2 = "startup-replay") ∧
+    Gen.watchUpdateCallers = ["handle_new_monitor_update_locked_actions_handled_by_caller"] := by decide
+
+example : ("RenegotiatedFunding", ["splice_initial_commitment_signed"]) ∈ Gen.stepSites := by decide
+
 /-- check_get_channel_ready (translated guard chain): a channel_ready that is due while a monitor update is in progress is
     ALWAYS recorded in monitor_pending_channel_ready (whether or not the peer is connected), and it is produced at once only
     when no update is in progress and the peer is connected. -/
